@@ -631,6 +631,14 @@ func (e *fnEnc) fieldAddr(i *ssa.FieldAddr) {
 	if _, isAlloc := i.X.(*ssa.Alloc); !isAlloc {
 		e.safety("nil", "field", fmt.Sprintf("(not (= %s 0))", r), i.Pos(), "nil pointer dereference (field "+st.Field(i.Field).Name()+")")
 	}
+	if e.vc.Opt.SafetyKinds["lock"] && !e.inlineAssume {
+		if g := e.vc.P.guardFor(pt); g != nil && g.Fields[st.Field(i.Field).Name()] {
+			if _, isAlloc := i.X.(*ssa.Alloc); !isAlloc {
+				name := e.vc.ordinal(fmt.Sprintf("%s#lock:access.%s", FuncKey(e.fn), st.Field(i.Field).Name()))
+				e.vc.oblige(&Obligation{Name: name, Kind: "lock", Guard: e.guard(), Cond: e.heldTerm(pt, g, r), Props: e.vc.Opt.SafetyProps, Pos: i.Pos(), Src: "guarded field " + g.Type + "." + st.Field(i.Field).Name() + " is accessed with " + g.Mutex + " held"})
+			}
+		}
+	}
 	k := e.vc.key(e.S().FieldKey(pt, i.Field))
 	e.lvs[i] = &LValue{Key: k, Kind: "field", Ref: r, ElemT: ft, RootT: ft}
 }
@@ -922,8 +930,14 @@ func (e *fnEnc) next(i *ssa.Next) {
 	}
 	// map iteration: some present key, or finished
 	var kn, vn string
-	kn = e.vc.fresh(e.name(i)+".k", e.S().SortOf(tup.At(1).Type()))
-	vn = e.vc.fresh(e.name(i)+".v", e.S().SortOf(tup.At(2).Type()))
+	ks, vs := e.S().SortOf(tup.At(1).Type()), e.S().SortOf(tup.At(2).Type())
+	if rng != nil {
+		if mt, ok := rng.X.Type().Underlying().(*types.Map); ok {
+			ks, vs = e.S().SortOf(mt.Key()), e.S().SortOf(mt.Elem())
+		}
+	}
+	kn = e.vc.fresh(e.name(i)+".k", ks)
+	vn = e.vc.fresh(e.name(i)+".v", vs)
 	if rng != nil {
 		if mt, ok := rng.X.Type().Underlying().(*types.Map); ok {
 			m := e.term(rng.X)
@@ -981,6 +995,12 @@ func (e *fnEnc) ret(i *ssa.Return) {
 		vals = append(vals, e.term(r))
 	}
 	e.rets = append(e.rets, retInfo{guard: e.guard(), vals: vals, heap: copyMap(e.cur), blk: e.curBlk})
+	if e.top && e.lockAtEntry != "" && e.vc.Opt.SafetyKinds["lock"] {
+		// same mutex term evaluated in the exit heap
+		exitHeld := strings.Replace(e.lockAtEntry, e.entryHeapName(lockKey), e.heap(lockKey), 1)
+		name := e.vc.ordinal(fmt.Sprintf("%s#lock:balanced", FuncKey(e.fn)))
+		e.vc.oblige(&Obligation{Name: name, Kind: "lock", Guard: e.guard(), Cond: sEq(exitHeld, e.lockAtEntry), Props: e.vc.Opt.SafetyProps, Pos: i.Pos(), Src: "the request mutex is in the same state at exit as at entry"})
+	}
 	if !e.top || e.contract == nil {
 		return
 	}
@@ -1033,4 +1053,24 @@ func (e *fnEnc) runDefers() {
 		d := e.deferred[k]
 		e.call(nil, d.Common(), d)
 	}
+}
+
+// heldTerm is the ghost "mutex of object r is held" term.
+func (e *fnEnc) heldTerm(T types.Type, g *GuardSpec, r string) string {
+	st := T.Underlying().(*types.Struct)
+	for k := 0; k < st.NumFields(); k++ {
+		if st.Field(k).Name() == g.Mutex {
+			fk := e.vc.key(e.S().FieldKey(T, k))
+			lv := &LValue{Key: fk, Kind: "field", Ref: r, ElemT: st.Field(k).Type(), RootT: st.Field(k).Type()}
+			return fmt.Sprintf("(select %s %s)", e.heap(lockKey), e.addrOfQuiet(lv))
+		}
+	}
+	return "false"
+}
+
+func (e *fnEnc) entryHeapName(k HeapKey) string {
+	if v, ok := e.entryHeap[k.Name]; ok {
+		return v
+	}
+	return "H0!" + k.Name
 }
